@@ -74,8 +74,8 @@ LEAN_MODULES = LEAN_MODULES + ["LccModel.Props.C02Attach"]
 PROPS_FILES = PROPS_FILES + ["LccModel/Props/C02Attach.lean"]
 NAMESPACES = dict(NAMESPACES, **{"LccModel/Props/C02Attach.lean": "LccModel.C02Attach"})
 RULE = RULE + ("; run stream also: attachment blocks that write their file as their LAST statement (50 % of the blocks) and are left by the "
-               "failing act before that (14 % of the failing scripts), `lcc.save_attachment_file` on a missing source file (10 % of the "
-               "failing scripts) — in test bodies, hooks, fixtures and lcc.Threads")
+               "failing act before that (14..18 % of the failing scripts), `lcc.save_attachment_file` on a missing source file (10..12 % of the "
+               "failing scripts) — in test bodies, hooks, fixtures, lcc.Threads and inside other blocks")
 EXPLANATION = EXPLANATION + (" An exception raised while an attachment is being prepared, before its file exists (a block that writes last, "
                              "save_attachment_file on a missing source), is an uncaught exception like any other: Props/C02Attach proves for "
                              "every exception kind that it fails the test / the setup / is logged by the lcc.Thread, and that leaving a block "
